@@ -8,8 +8,8 @@ from pyvc.engine import Engine
 
 META = {
     "level": "other",
-    "technique": "contract-based deductive verification (pyvc, SMT) of the exit flag (rule_list.check_rules: violations flag set iff an error-severity violation was produced; number of rules checked == analyses run); all report formats of one real CLI run parsed back and compared as bounded stand-in",
-    "text": "Proved for all rule lists and analysis outcomes: the exit status apply_rules returns for an accepted file is the flag of the final check_rules (and True/1 for a rejected one); check_rules sets the flag that becomes the exit status exactly when an error-severity rule produced a violation (warnings never set it) and counts exactly the rules it analysed. The report builders (string formatting, sorted(), JUnit/JSON/quality-report writers) are not under contract; their mutual consistency is checked as a labelled bounded stand-in: standard, syntastic and summary output, JSON, JUnit and quality report of real CLI runs with seeded built-in and user-defined severities are parsed back and compared, together with the printed counts and the exit status.",
+    "technique": "contract-based deductive verification (pyvc, SMT) of the exit flag (rule_list.check_rules: violations flag set iff an error-severity violation was produced; number of rules checked == analyses run; apply_rules returns that flag) and of the JSON / JUnit builders of rule_list (entry counts against spec functions of the rule list); all report formats of one real CLI run parsed back and compared as bounded stand-in",
+    "text": "Proved for all rule lists and analysis outcomes: the exit status apply_rules returns for an accepted file is the flag of the final check_rules (and True/1 for a rejected one); check_rules sets the flag that becomes the exit status exactly when an error-severity rule produced a violation (warnings never set it) and counts exactly the rules it analysed. extract_violation_dictionary lists exactly one JSON entry per violation of every rule (n_viol(rules)) and extract_junit_testcase exactly one failure line per violation of the error-severity rules (n_err_viol(rules)), in a single failure element that is absent when there is none. The text formatters (standard / syntastic / summary output with sorted(), the XML and quality-report writers) are not under contract; their mutual consistency is checked as a labelled bounded stand-in: standard, syntastic and summary output, JSON, JUnit and quality report of real CLI runs with seeded built-in and user-defined severities are parsed back and compared, together with the printed counts and the exit status.",
     "note": "Known finding (listed): the GitLab quality report maps severities by the NAME 'Error', so violations of a user-defined error-type severity are reported as 'minor'. Trusted: pyvc, SMT solvers; assumed abstract contract of Rule.analyze.",
 }
 
@@ -17,7 +17,8 @@ META = {
 def run():
     c = Check("C14", "other")
     c.engine = Engine()
-    c.deductive(["vsg.rule_list.rule_list.check_rules", "vsg.apply_rules.apply_rules", "vsg.rule_list.rule_list.clear_violations"])
+    QUALS = ["vsg.rule_list.rule_list.check_rules", "vsg.apply_rules.apply_rules", "vsg.rule_list.rule_list.clear_violations", "vsg.rule_list.rule_list.extract_violation_dictionary", "vsg.rule_list.rule_list.extract_junit_testcase", "vsg.junit.failure.add_text", "vsg.junit.failure.has_text", "vsg.junit.testcase.add_failure"]
+    c.deductive(QUALS)
     n = 24 if c.tier == "quick" else 400
     files = corpus.sample(n, c.seed + 14)
     res = corpus.pmap(cli.c14_case, [(f, c.seed * 1000 + i) for i, f in enumerate(files)], chunksize=1)
@@ -30,4 +31,8 @@ def run():
             kind = "quality_report_critical_count" if why.startswith("quality report marks") else "traceback" if why.startswith("traceback") else "formats"
             rel = os.path.relpath(p, corpus.REPO)
             c.findings.append(Finding("bounded", "reports:" + kind, "%s [%s]: %s" % (rel, mode, why), {"file": p, "severity_mode": mode, "observed": why}, "%s|%s" % (rel, mode)))
+    if c.tier == "thorough":
+        from pyvc.checklib import run_selftest
+
+        run_selftest(c, ["mutants_reports.py"], lambda eng: QUALS[3:5])
     return c.finish({"explanation": META["text"]})
